@@ -181,18 +181,24 @@ class TriggerHandler:
 
     def __process_call_backs(self, ctx: 'TriggerContext', arg: any, frame: FrameType, event: str, file: str, line: int,
                              function_name: str):
-        # remove top context
-        context: CallbackContext = self._callbacks.value.pop()
-        # if it is for our location process it
-        if context.at_location(event, file, line, function_name, frame):
-            logging.debug("At callback location %s", context.name)
-            context.process(ctx, event, frame, arg)
-        else:
-            logging.debug("Not at callback location %s", context.name)
-            # else put the context back on the queue
-            self._callbacks.value.append(context)
+        # The contexts are stacked in the order they were created, so the ones for the current location are on top.
+        # More than one can end at the same event (e.g. the last line of a function and the function itself), so we
+        # complete all of them, not only the top one.
+        stack = self._callbacks.value
+        while len(stack) > 0:
+            # remove top context
+            context: CallbackContext = stack.pop()
+            # if it is for our location process it
+            if context.at_location(event, file, line, function_name, frame):
+                logging.debug("At callback location %s", context.name)
+                context.process(ctx, event, frame, arg)
+            else:
+                logging.debug("Not at callback location %s", context.name)
+                # else put the context back on the queue
+                stack.append(context)
+                break
 
-        if len(self._callbacks.value) == 0:
+        if len(stack) == 0:
             logging.debug("Callbacks cleared.")
             self._callbacks.clear()
 
